@@ -4,6 +4,7 @@
    arbitrary Hermitian operator, equality at full Krylov dimension, accuracy of exp) are decided by the
    oracle of harness/c16.py only; see T16_ritz_bound_partial. *)
 From TenpyV Require Import Base.Prelude Model.Truncate Model.Krylov Proofs.KrylovP Model.Krylov2 Proofs.KrylovP2.
+From TenpyV Require Import Model.KrylovGmres Proofs.KrylovGmresP.
 
 (* the cache never holds more than N_cache vectors and always holds exactly the last min(k, N_cache) *)
 Theorem T16_cache_bounded : forall nc k, (1 <= nc)%nat ->
@@ -154,6 +155,56 @@ Theorem T16_gram_schmidt_indices : forall nc N k, (2 <= nc)%nat -> (k < N)%nat -
      ~ In j (ortho_targets (nth k' (build_ortho nc true 0 N []) []))).
 Proof. exact gram_schmidt_indices. Qed.
 
+(* ---- GMRES.run / GMRES.reset: restart bookkeeping (Model/KrylovGmres.v; which estimates were below the tolerance is an input).
+   A cycle stops at the first Arnoldi step k >= N_min whose residual estimate is below the tolerance and otherwise runs
+   N_max steps (K = number of steps, cv = converged) *)
+Theorem T16_gmres_stop_rule : forall N_min N_max fl K cv, gm_inner N_min 0 N_max fl = (K, cv) ->
+  (cv = true -> (1 <= K <= N_max)%nat /\ nth (K - 1) fl false = true /\ (N_min <= K - 1)%nat /\
+                (forall j, (j < K - 1)%nat -> ~ (nth j fl false = true /\ (N_min <= j)%nat))) /\
+  (cv = false -> K = N_max /\ (forall j, (j < N_max)%nat -> ~ (nth j fl false = true /\ (N_min <= j)%nat))).
+Proof. exact gm_stop_rule. Qed.
+
+(* at most `restart` cycles of 1..N_max steps; every cycle but the last one ran N_max steps without convergence;
+   a run that never converged used all `restart` cycles *)
+Theorem T16_gmres_cycles : forall N_min N_max r fls, (1 <= N_max)%nat ->
+  let l := gm_cycles N_min N_max r fls in
+  (length l <= r)%nat /\
+  Forall (fun p => (1 <= fst p <= N_max)%nat) l /\
+  (forall i, (S i < length l)%nat -> nth i l (0%nat, true) = (N_max, false)) /\
+  ((forall p, In p l -> snd p = false) -> length l = r).
+Proof. exact gm_cycles_spec. Qed.
+
+(* operator applications: one per Arnoldi step, one per residual (initial, every reset, returned); one fresh start state per
+   residual computed before a cycle; the update of x adds one term per Arnoldi step *)
+Theorem T16_gmres_matvec_count : forall N_min N_max restart fls,
+  let l := gm_cycles N_min N_max restart fls in
+  let evs := gmres_events N_min N_max restart false fls in
+  (count_tag 11 evs + count_tag 14 evs + count_tag 15 evs = 2 + sum_nat (map fst l) + gm_resets l)%nat /\
+  count_tag 10 evs = S (gm_resets l) /\ count_tag 13 evs = gm_resets l /\
+  count_tag 12 evs = sum_nat (map fst l).
+Proof. exact gmres_matvec_count. Qed.
+
+(* every reset is followed by the residual of the current x and a start state that satisfies ALL restart invariants (one Krylov
+   vector r/|r|, r_norm = |r| absolute, e1 = r_norm e_1, H / rotations zero), and the Arnoldi steps of the new cycle count their
+   Krylov vectors from one again *)
+Theorem T16_gmres_restart_state : forall N_min N_max restart ib fls,
+  Forall ev_fresh (gmres_events N_min N_max restart ib fls) /\
+  (forall c K t, gm_run_events c ((K, false) :: t) =
+     gm_cycle_events c K ++ [(13, c, 0, 0); (14, S c, 0, 0); (10, S c, 0, 0)]%nat ++ gm_run_events (S c) t) /\
+  (forall c K, gm_cycle_events c (S K) =
+     (11, c, 0, 1)%nat :: map (fun k => (11, c, k, S k)%nat) (seq 1 K) ++ map (fun i => (12, c, i, 0)%nat) (seq 0 (S K))).
+Proof. exact gmres_restart_state. Qed.
+
+(* GMRES(2), N_min = 0, restart = 3: first cycle without convergence, second converges in its step 1 *)
+Example T16_example_gmres :
+  gmres_events 0 2 3 false [[false; false]; [false; true]] =
+  [(14,0,0,0); (10,0,0,0); (11,0,0,1); (11,0,1,2); (12,0,0,0); (12,0,1,0); (13,0,0,0); (14,1,0,0); (10,1,0,0);
+   (11,1,0,1); (11,1,1,2); (12,1,0,0); (12,1,1,0); (15,0,0,0)]%nat /\
+  gmres_iters 0 2 3 false [[false; false]; [false; true]] = [2; 2]%nat /\
+  gmres_iters 1 3 2 false [[true; true; false]; []] = [2]%nat /\ gmres_iters 1 3 2 false [[true; false; false]; []] = [3; 3]%nat /\
+  gmres_events 5 20 10 true [] = [(14,0,0,0); (10,0,0,0)]%nat.
+Proof. vm_compute. repeat split; reflexivity. Qed.
+
 (* non-vacuity: N = 7 iterations with N_cache = 3: cache, the assembled terms, a piece of the trace *)
 Example T16_example_cache : cache_after 3 7 = [4; 5; 6]%nat.
 Proof. vm_compute. reflexivity. Qed.
@@ -212,3 +263,7 @@ Print Assumptions T16_shift_rayleigh.
 Print Assumptions T16_shift_twice.
 Print Assumptions T16_shift_shared_operator_refuted.
 Print Assumptions T16_gram_schmidt_indices.
+Print Assumptions T16_gmres_stop_rule.
+Print Assumptions T16_gmres_cycles.
+Print Assumptions T16_gmres_matvec_count.
+Print Assumptions T16_gmres_restart_state.
